@@ -635,6 +635,11 @@ impl Session<'_> {
             });
             new_cell_with(new_state)
         };
+        // The store now knows this session by its current id: syncing again—e.g. `finalize`
+        // after an explicit `sync`—must not try to rename or create the record a second time.
+        if matches!(self.server_state.get(), None | Some(Unchanged { .. })) {
+            self.id = CurrentSessionId::Existing(self.id.new_id());
+        }
         Ok(())
     }
 
